@@ -64,6 +64,7 @@ func main() {
 	repo := flag.String("repo", "/repo", "repository root")
 	out := flag.String("out", "", "output directory")
 	specFile := flag.String("spec", "", "JSON spec file")
+	access := flag.String("access", "", "directory of overlay-only accessor files: <dir>/<pkg path>/<name>.go.in is added as <repo>/<pkg path>/zz_verif_<name>.go")
 	flag.Parse()
 	if *out == "" || *specFile == "" {
 		fatal("usage: vinstr -repo DIR -out DIR -spec FILE")
@@ -110,9 +111,12 @@ func main() {
 		}
 		cfg.Overlay[path] = bytes.Replace(src, []byte(tw.Old), []byte(tw.New), 1)
 	}
-	pkgs, err := packages.Load(cfg, patterns...)
-	if err != nil {
-		fatal("load: %v", err)
+	var pkgs []*packages.Package
+	if len(patterns) > 0 {
+		pkgs, err = packages.Load(cfg, patterns...)
+		if err != nil {
+			fatal("load: %v", err)
+		}
 	}
 	overlay := map[string]string{}
 	nfiles, npoints := 0, 0
@@ -158,6 +162,21 @@ func main() {
 	}
 	for target, src := range sp.Add {
 		overlay[filepath.Join(*repo, target)] = src
+	}
+	if *access != "" {
+		filepath.Walk(*access, func(path string, fi os.FileInfo, err error) error {
+			if err != nil || fi.IsDir() || !strings.HasSuffix(path, ".go.in") {
+				return nil
+			}
+			rel, _ := filepath.Rel(*access, path)
+			dir := filepath.Dir(rel)
+			if _, err := os.Stat(filepath.Join(*repo, dir)); err != nil {
+				return nil
+			}
+			name := "zz_verif_" + strings.TrimSuffix(filepath.Base(rel), ".in")
+			overlay[filepath.Join(*repo, dir, name)] = path
+			return nil
+		})
 	}
 	ob, _ := json.MarshalIndent(map[string]interface{}{"Replace": overlay}, "", " ")
 	if err := os.WriteFile(filepath.Join(*out, "overlay.json"), ob, 0o644); err != nil {
